@@ -403,6 +403,7 @@ Definition pchunks (m : mesh) : list chunk :=
 Definition geo_ok (m : mesh) : Prop :=
   attrs_ok (aV m) /\ attrs_ok (aE m) /\ attrs_ok (aF m) /\ attrs_ok (aFC m) /\ attrs_ok (aC m) /\ attrs_ok (aCC m)
   /\ attrs_ok (aCF m) /\ ~ In geo_imp_opp_cell (map (@a_name F Cx) (aCF m))
+  /\ (~ In geo_exp_fc_adj_name (map (@a_name F Cx) (aFC m)) /\ ~ In geo_exp_cf_adj_name (map (@a_name F Cx) (aCF m)))
   /\ Forall (fun c => zlen c = geo_imp_default_cell) (mC m).
 
 Lemma flat_map_fl (V : list (F * F * F)) : flat_map (fun v => map fl (v3 v)) V = map fl (flat_map (@v3 F) V).
@@ -847,7 +848,7 @@ Lemma final_ptrs (m : mesh) sizes : geo_ok m ->
    (ncf, fptr, ncc, cptr))
   = (map zlen (mF m), ptrs_from 0 (mF m), map zlen (mC m), ptrs_from 0 (mC m)).
 Proof.
-  intros (_ & _ & _ & _ & _ & _ & _ & _ & HC) S2 S4. rewrite S2, S4.
+  intros (_ & _ & _ & _ & _ & _ & _ & _ & _ & HC) S2 S4. rewrite S2, S4.
   assert (HCs : (if zlen (mC m) >? 0 then default_sizes geo_imp_default_cell (zlen (mC m)) else ([], []))
                 = (map zlen (mC m), ptrs_from 0 (mC m))).
   { destruct (mC m) as [|c C] eqn:EC; [reflexivity|].
